@@ -86,7 +86,7 @@ def printer : Expect := {
     ("wantSpace",      .reset),
     ("wantNewline",    .reset),
     ("mustNewline",    .reset),
-    ("wroteSemi",      .defect "C08-printer-stale-wrotesemi"),
+    ("wroteSemi",      .reset),   -- was finding C08-printer-stale-wrotesemi until reset() got `p.wroteSemi = false`
     ("pendingComments", .truncated),
     ("firstLine",      .reset),
     ("line",           .reset),
@@ -95,7 +95,10 @@ def printer : Expect := {
     ("levelIncs",      .truncated),
     ("nestedBinary",   .reset),
     ("pendingHdocs",   .truncated),
-    ("tabsPrinter",    .scratch "flushHeredocs assigns a new Printer immediately before its only use (`p.tabsPrinter.wordParts`) in the same branch; never read elsewhere")
+    -- the nested printer for tab-indented `<<-` bodies: flushHeredocs assigns `&Printer{…}` right
+    -- before its only use; were it kept across heredocs, its lastLevel/level/pending lists would
+    -- survive (they are reset only by the outer reset()) — the obligation forbids that
+    ("tabsPrinter",    .fresh)
   ],
   entryInit := [("w", .call "Reset"), ("tabWriter", .call "Init")],
   -- paramExp: `saved := p.minify; p.minify = false; p.wordPart(pe.NestedParam, nil); p.minify = saved`
@@ -106,7 +109,7 @@ def printer : Expect := {
 
 /-- fields that are NOT covered (recorded findings); `Props/C08.lean` proves that each of them is
     really uncovered in the regenerated table, so a fix in /repo shows up as a broken obligation -/
-def printerOpen : List String := ["wroteSemi"]
+def printerOpen : List String := []
 def parserOpen : List String := []
 
 /-- expected call structure of the statement entry points: (callee, enclosing if-condition, args) -/
